@@ -30,8 +30,8 @@ def plan(tier, seed):
     reps = 1 if tier == "quick" else 6
     for b in BANKS:
         for rep in range(reps):
-            sh.append({"kind": "single", "bank": b, "rep": rep, "images": 12 if tier == "quick" else 24})
-            sh.append({"kind": "all", "bank": b, "rep": rep, "images": 16 if tier == "quick" else 48})
+            sh.append({"kind": "single", "bank": b, "rep": rep, "images": 24 if tier == "quick" else 48})
+            sh.append({"kind": "all", "bank": b, "rep": rep, "images": 32 if tier == "quick" else 96})
     return sh
 
 
